@@ -63,7 +63,7 @@ func c08Run(c *fw.Ctx) {
 			c08Placement{Name: "body-wrong-then-right", Body: []string{sb, sg}, OK: true})
 	}
 	future, past := harness.At(time.Hour), harness.At(-time.Minute)
-	secretStrings := []string{"session-access-token-SECRET", "session-refresh-token-SECRET", "vip.user@corp.test", "new-access-token-SECRET"}
+	secretStrings := []string{"session-access-token-SECRET", "session-refresh-token-SECRET", "Vip.User@Corp.test", "new-access-token-SECRET"}
 	mk := func(refresh, lifetime time.Time) *sessions.SessionState {
 		return &sessions.SessionState{ProviderSlug: e.Slug, AccessToken: secretStrings[0], RefreshToken: secretStrings[1], Email: secretStrings[2], User: "vip.user",
 			RefreshDeadline: refresh, LifetimeDeadline: lifetime, ValidDeadline: future}
@@ -198,7 +198,8 @@ func c08Run(c *fw.Ctx) {
 		}
 		reveals := ""
 		for _, s := range secretStrings {
-			if strings.Contains(resp.Body, s) || strings.Contains(fmt.Sprint(resp.Header), s) {
+			// (case-insensitively: a response that reveals the address in another letter case reveals it)
+			if strings.Contains(strings.ToLower(resp.Body), strings.ToLower(s)) || strings.Contains(strings.ToLower(fmt.Sprint(resp.Header)), strings.ToLower(s)) {
 				reveals = s
 			}
 		}
@@ -277,12 +278,12 @@ func c08Unconfigured(c *fw.Ctx) {
 			case "token":
 				return ans(200, `{"access_token":"new-access-token-SECRET","expires_in":3600}`)
 			case "userinfo":
-				return ans(200, `{"email":"vip.user@corp.test","email_verified":true,"groups":["eng"]}`)
+				return ans(200, `{"email":"Vip.User@Corp.test","email_verified":true,"groups":["eng"]}`)
 			}
 			return ans(200, `{"active":true}`)
 		}
 		future := harness.At(time.Hour)
-		code, _ := sessions.MarshalSession(&sessions.SessionState{ProviderSlug: e.Slug, AccessToken: "session-access-token-SECRET", RefreshToken: "session-refresh-token-SECRET", Email: "vip.user@corp.test",
+		code, _ := sessions.MarshalSession(&sessions.SessionState{ProviderSlug: e.Slug, AccessToken: "session-access-token-SECRET", RefreshToken: "session-refresh-token-SECRET", Email: "Vip.User@Corp.test",
 			RefreshDeadline: future, LifetimeDeadline: future, ValidDeadline: future}, e.CodeCipher)
 		q, body, hdr := url.Values{}, url.Values{}, http.Header{"X-Access-Token": {"session-access-token-SECRET"}}
 		switch presented {
@@ -303,7 +304,7 @@ func c08Unconfigured(c *fw.Ctx) {
 			method = "POST"
 			body.Set("refresh_token", "session-refresh-token-SECRET")
 		case "profile":
-			q.Set("email", "vip.user@corp.test")
+			q.Set("email", "Vip.User@Corp.test")
 			q.Set("groups", "eng")
 		}
 		var b []byte
@@ -314,7 +315,7 @@ func c08Unconfigured(c *fw.Ctx) {
 		resp := e.Do(harness.NewRequest(method, "/"+e.Slug+"/"+ep+"?"+q.Encode(), harness.AuthHost, hdr, b))
 		c.Res.Outcome(fmt.Sprintf("unconfigured|%s|%s|%d|%d", ep, presented, resp.Status, calls))
 		d := map[string]interface{}{"endpoint": ep, "credentials_presented": presented, "status": resp.Status, "identity_provider_calls": calls, "body": truncate(resp.Body, 200)}
-		if resp.Status < 400 || calls > 0 || strings.Contains(resp.Body, "SECRET") || strings.Contains(resp.Body, "vip.user") {
+		if resp.Status < 400 || calls > 0 || strings.Contains(resp.Body, "SECRET") || strings.Contains(strings.ToLower(resp.Body), "vip.user") {
 			c.Res.Violate(fw.Violation{Property: "C08", Key: "C08/unconfigured-proxy-client/acts-for-anonymous-caller/" + ep, Scenario: "unconfigured-proxy-client", Choices: x.Choices(), Detail: d,
 				What: fmt.Sprintf("an authenticator started without proxy client credentials answered %s with %d for a caller presenting %s (identity-provider calls: %d)", ep, resp.Status, presented, calls)})
 		}
